@@ -1737,6 +1737,7 @@ pub fn spin_programs(tier: &str) -> Vec<Program> {
         vec![],
     ));
     v.extend(spin_obs_family(tier != "quick"));
+    v.extend(spin_pingpong_family());
     // the same loops spinning with `hint::spin_loop()` instead of `thread::yield_now()`
     let step = if tier == "quick" { 4 } else { 1 };
     let hinted: Vec<Program> = v
@@ -3482,6 +3483,32 @@ pub fn cv_two_waiters_family() -> Vec<Program> {
                 out.push(with_main("CV-two", objs.clone(), vec![], vec![waiter(post), waiter(post)], nt.clone(), vec![]));
             }
             out.push(with_main("CV-two-main-waits", objs.clone(), vec![], vec![waiter(post), nt], waiter(post), vec![]));
+        }
+    }
+    out
+}
+
+/// SPIN-pingpong: two spinners that wait for each other in turn and a setter that starts the
+/// chain: A awaits x, sets y, awaits z; B awaits y, sets z; C sets x. Two threads are inside
+/// yield loops at the same time while a third can run, so the scheduler's choice among several
+/// yielded threads (the one that yielded least often goes first) decides whether the setter ever
+/// runs. Every assignment of the three roles to main / first child / second child; relaxed and
+/// release/acquire.
+pub fn spin_pingpong_family() -> Vec<Program> {
+    let mut out = vec![];
+    for (ld_mo, st_mo) in [(Rlx, Rlx), (Acq, Rel)] {
+        let aw = |a: usize| Op::from(K::Await { a, mo: ld_mo, want: 1 });
+        let aws = |a: usize| Op::from(K::AwaitSpun { a, mo: ld_mo, want: 1 });
+        let role_a = |spun: bool| vec![if spun { aws(0) } else { aw(0) }, st(1, 1, st_mo), aw(2)];
+        let role_b = || vec![aw(1), st(2, 1, st_mo)];
+        let role_c = || vec![st(0, 1, st_mo)];
+        for spun in [false, true] {
+            let roles: Vec<Vec<Op>> = vec![role_a(spun), role_b(), role_c()];
+            let perms: [[usize; 3]; 6] = [[0, 1, 2], [0, 2, 1], [1, 0, 2], [1, 2, 0], [2, 0, 1], [2, 1, 0]];
+            for pm in perms {
+                // main plays roles[pm[0]], the children roles[pm[1]], roles[pm[2]]
+                out.push(with_main("SPIN-pingpong", atomics(3), vec![], vec![roles[pm[1]].clone(), roles[pm[2]].clone()], roles[pm[0]].clone(), vec![]));
+            }
         }
     }
     out
